@@ -125,6 +125,49 @@ Fixpoint height (t : stree) : nat :=
 (* one reconstruct() call: tree, recorded matches, yielded items (strings), final text *)
 Definition run := (stree * list mrec * list string * string)%type.
 
+(* compact transport form of a run (keeps the generated case files small): a match is given by the preorder
+   index of its node in the root tree, leaves and written children by their index among the node's children;
+   the expansion of a match node is read off its arguments *)
+Inductive cutree := CL (i : nat) | CLfull (c : stree) | CU (origin : nat) (orig : list sym) (args : list cutree).
+Inductive citem := CS (s : string) | CC (i : nat) | CCfull (c : stree).
+Definition cmrec := (nat * cutree * list citem)%type.
+Definition crun := (stree * list cmrec * list string * string)%type.
+
+Fixpoint subtrees (t : stree) : list stree :=
+  match t with
+  | Tok _ _ => [t]
+  | Node _ cs => t :: flat_map subtrees cs
+  end.
+
+Definition dummy : stree := Tok 0 EmptyString.
+
+Fixpoint expand_u (cs : list stree) (u : cutree) : utree :=
+  match u with
+  | CL i => ULeaf (nth i cs dummy)
+  | CLfull c => ULeaf c
+  | CU o orig args =>
+      let args' := map (expand_u cs) args in
+      UNode (mkR o (map (fun a => match a with
+                                  | ULeaf c => T (name_of c)
+                                  | UNode r _ => NT (r_origin r)
+                                  end) args') orig) args'
+  end.
+
+Definition expand_item (cs : list stree) (i : citem) : witem :=
+  match i with
+  | CS s => WStr 0 s
+  | CC k => WChild (nth k cs dummy)
+  | CCfull c => WChild c
+  end.
+
+Definition expand_run (r : crun) : run :=
+  let '(t, ms, toks, text) := r in
+  let subs := subtrees t in
+  (t, map (fun m : cmrec => let '(k, u, w) := m in
+                            let node := nth k subs dummy in
+                            let cs := match node with Node _ cs => cs | Tok _ _ => [] end in
+                            (node, expand_u cs u, map (expand_item cs) w)) ms, toks, text).
+
 Record rcase := mkCase {
   c_names : list string;
   c_rules : list prule;
@@ -133,8 +176,9 @@ Record rcase := mkCase {
   c_exp_rfr : list (list rrule);           (* TreeMatcher.rules_for_root[name] for every name index *)
   c_in_class : bool;                       (* the harness's own evaluation of class_b on the rules *)
   c_need_sup : bool;                       (* case generated inside the supported class: matches must be supported *)
-  c_runs : list run
+  c_cruns : list crun
 }.
+Definition c_runs (c : rcase) : list run := map expand_run (c_cruns c).
 
 Definition check_rules (c : rcase) : bool :=
   let us := uscore_of (c_names c) in
